@@ -290,7 +290,11 @@ def c18_d(ctx):
             nm = star[0].value.id
             ups = [u for u in ctx.calls(re_, name='update') if isinstance(u.func.value, ast.Name)
                    and u.func.value.id == nm and u.args and
-                   contains(exr.term(u.args[0]), 'subprocess_kwargs')]
+                   (exr.term(u.args[0]) == ('param', 'subprocess_kwargs') or match_any(
+                       exr.term(u.args[0]), ('subprocess_kwargs or {}',
+                                             'subprocess_kwargs or dict()',
+                                             '{} if subprocess_kwargs is None else '
+                                             'subprocess_kwargs')) is not None)]
             if ups and ctx.must_precede(re_, ups, c):
                 okr = True
         elif star and contains(exr.term(star[0].value), 'subprocess_kwargs'):
@@ -559,3 +563,140 @@ def _dtype_tests(ctx, rv, ex, value):
         elif match(term, pattern('dtype is not False')) is not None:
             out.append((t, not value))
     return out
+
+
+@obligation('C18-h', 'T8 T11', 'external command pipeline: each helper returns what the next step '
+            'consumes; the default parser replaces only a missing handler or a type; the '
+            'handler\'s value is the result', floor=8,
+            necessary='a helper that returns nothing, a parser installed over the user\'s '
+                      'handler, or a dropped handler result is not `parse(stdout of the command '
+                      'with the inputs substituted)`')
+def c18_h(ctx):
+    # (a) unpack_meta / prepare_seed: every exit returns (positional, keyword) inputs
+    for name in ('unpack_meta', 'prepare_seed'):
+        f = ctx.fn(T + ':' + name)
+        ex = ctx.ex(f)
+        cfg = cfg_of(f)
+        rr = returns(f)
+        falls = [p for (p, lab) in cfg.ret.pred
+                 if not (p.kind == 'stmt' and isinstance(p.ast, ast.Return))]
+        va = f.node.args.vararg.arg if f.node.args.vararg else None
+        kw = f.node.args.kwarg.arg if f.node.args.kwarg else None
+        ok = bool(rr) and not falls and va is not None and kw is not None
+        for r in rr:
+            t = ex.term(r.value)
+            ok = ok and t[0] == 'tuple' and len(t[1]) == 2 and t[1][0] == ('param', va) and \
+                (t[1][1] == ('param', kw) or contains(t[1][1], ('param', kw)))
+        ctx.check(ok, f, '{} returns (inputs, kwinputs)'.format(name), 'return inputs, kwinputs',
+                  '{} does not return the (positional, keyword) inputs on every exit'.format(name),
+                  fn=f, node=rr[0] if rr else f.node)
+    um = ctx.fn(T + ':unpack_meta')
+    exu = ctx.ex(um)
+    kw = um.node.args.kwarg.arg
+    merged = [n for n in own_nodes(um.node) if isinstance(n, (ast.Assign, ast.Return)) and
+              n.value is not None and
+              match(exu.term(n.value), pattern("{}['meta'].copy()".format(kw))) is not None and
+              not match(exu.raw(n.value), pattern("_['meta'].copy()"))]
+    rr = returns(um)
+    flows = any(contains(exu.term(r.value), "{}['meta'].copy()".format(kw)) for r in rr)
+    ok = flows and all(_has_guard(ctx, um, n, ("'meta' in _k",), True) for n in merged) and \
+        all(_has_guard(ctx, um, n, ("'meta' in _k",), True) for n in own_nodes(um.node)
+            if isinstance(n, ast.Assign) and
+            match(exu.raw(n.value), pattern("_['meta'].copy()")) is not None)
+    ctx.check(ok, um, 'merged meta data is what unpack_meta returns',
+              "kwinputs = merged copy when 'meta' in kwinputs",
+              'the merged meta data do not reach the return value of unpack_meta (or are merged '
+              'when there are none)', fn=um, node=rr[0] if rr else um.node)
+    # (b) run_external: optional user preparation, handler applied to the process output
+    re_ = ctx.fn(T + ':run_external')
+    ex = ctx.ex(re_)
+    cfg = cfg_of(re_)
+    pi = [c for c in ctx.calls(re_) if ex.term(c.func) == ('param', 'prepare_inputs')]
+    ok = len(pi) == 1 and any(p and t == ('param', 'prepare_inputs')
+                              for (t, p, _) in ctx.guards(re_, pi[0]))
+    fm = [c for c in ctx.calls(re_, name='format') if ex.raw(c.func.value) == ('name', 'command')]
+    if ok and fm:
+        fk = [ex.term(x.value) for x in fm[0].keywords if x.arg is None]
+        fa = [ex.term(x.value) for x in fm[0].args if isinstance(x, ast.Starred)]
+        ok = bool(fk) and bool(fa) and contains(fk[0], 'prepare_inputs(*_)') and \
+            contains(fa[0], 'prepare_inputs(*_)')
+    ctx.check(ok, re_, 'user preparation applied when given',
+              'if prepare_inputs: inputs, kwinputs = prepare_inputs(*inputs, **kwinputs)',
+              'the user\'s prepare_inputs is not applied exactly when it is given, or its result '
+              'does not reach the command line', fn=re_, node=pi[0] if pi else re_.node)
+    pr = [c for c in ctx.calls(re_) if ex.term(c.func) == ('param', 'process_result')]
+    rr = returns(re_)
+    falls = [p for (p, lab) in cfg.ret.pred
+             if not (p.kind == 'stmt' and isinstance(p.ast, ast.Return))]
+    ok = len(pr) == 1 and bool(rr) and not falls and all(
+        match(ex.term(r.value), pattern('process_result(*_)')) is not None for r in rr)
+    ctx.check(ok, re_, 'the handler\'s value is returned', 'return process_result(...)',
+              'run_external does not return the value of the result handler on every exit',
+              fn=re_, node=rr[0] if rr else re_.node)
+    if len(pr) == 1:
+        c = pr[0]
+        a0 = ex.term(c.args[0]) if c.args and not isinstance(c.args[0], ast.Starred) else None
+        st = [ex.term(x.value) for x in c.args if isinstance(x, ast.Starred)]
+        kws = [ex.term(x.value) for x in c.keywords if x.arg is None]
+        ok = a0 is not None and contains(a0, 'subprocess.run(*_)') and len(c.args) == 2 and \
+            bool(st) and bool(kws) and contains(kws[0], 'prepare_seed(*_)') and \
+            contains(st[0], 'prepare_seed(*_)')
+        ctx.check(ok, re_, 'handler receives (process output, inputs, keyword inputs)',
+                  'process_result(completed_process, *inputs, **kwinputs)',
+                  'the handler is not called as handler(process output, *inputs, **kwinputs)',
+                  fn=re_, node=c)
+    runs = ctx.calls(re_, 'subprocess.run(*_)')
+    ok = len(runs) == 1 and bool(runs[0].args) and \
+        contains(ex.term(runs[0].args[0]), 'command.format(*_)')
+    if ok:
+        star = [k for k in runs[0].keywords if k.arg is None]
+        ok = len(star) == 1 and match(ex.term(star[0].value),
+                                      pattern('dict(shell=True, check=True)')) is not None
+    ctx.check(ok, re_, 'the formatted command is run in a shell, failures raise',
+              'subprocess.run(command.format(...), shell=True, check=True, ...)',
+              'subprocess.run is not given the formatted command with shell=True, check=True',
+              fn=re_, node=runs[0] if runs else re_.node)
+    # (c) external_operation: the default parser replaces only None or a type
+    eo = ctx.fn(T + ':external_operation')
+    exo = ctx.ex(eo)
+    inst = [s for s in own_nodes(eo.node) if isinstance(s, ast.Assign) and
+            isinstance(s.targets[0], ast.Name) and s.targets[0].id == 'process_result' and
+            contains(exo.raw(s.value), 'stdout_to_array')]
+    if not inst:
+        raise AnchorMissing('default parser installation in external_operation')
+    ok = False
+    for grp in ctx.guard_groups(eo, inst[0]):
+        for (t, pol) in grp:
+            if pol and t[0] == 'bool' and t[1] == 'or' and len(t[2]) == 2:
+                parts = list(t[2])
+                none_ = [x for x in parts
+                         if match(x, pattern('process_result is None')) is not None]
+                isin = [x for x in parts
+                        if match(x, pattern('isinstance(process_result, _T)')) is not None]
+                ok = ok or (len(none_) == 1 and len(isin) == 1)
+    ctx.check(ok, eo, 'default parser only for None or a type',
+              'if process_result is None or isinstance(process_result, (str, np.dtype))',
+              'the default parser is not installed exactly when the handler is missing or is a '
+              'type: a user handler is replaced, or a missing one stays None', fn=eo,
+              node=inst[0])
+    v = exo.term(inst[0].value)
+    ok = match(v, pattern('partial(stdout_to_array, **_k)')) is not None and any(
+        k is None and x[0] == 'dict' and (('const', 'sep'), ('param', 'sep')) in x[1]
+        for (k, x) in v[3])
+    ctx.check(ok, eo, 'separator reaches the parser', 'partial(stdout_to_array, sep=sep, ...)',
+              'the separator is not bound to the default parser', fn=eo, node=inst[0])
+    sk = [s for s in own_nodes(eo.node) if isinstance(s, ast.Assign) and
+          isinstance(s.targets[0], ast.Name) and s.targets[0].id == 'subprocess_kwargs']
+    ok = all(match_any(exo.raw(s.value), ('subprocess_kwargs or {}', 'dict(subprocess_kwargs or {})',
+                                          '{} if subprocess_kwargs is None else subprocess_kwargs',
+                                          '{} if subprocess_kwargs is None else '
+                                          'dict(subprocess_kwargs)'))
+             is not None for s in sk)
+    pipe = [s for s in own_nodes(eo.node) if isinstance(s, ast.Assign) and
+            isinstance(s.targets[0], ast.Subscript) and
+            match(exo.raw(s.targets[0]), pattern("subprocess_kwargs['stdout']")) is not None]
+    ok = ok and bool(sk) and bool(pipe) and ctx.must_precede(eo, sk, pipe[0])
+    ctx.check(ok, eo, 'user subprocess options kept when the pipe is added',
+              'subprocess_kwargs = subprocess_kwargs or {} before the pipe is set',
+              'the user\'s subprocess options are discarded (or None is subscripted) when the '
+              'stdout pipe is requested', fn=eo, node=sk[0] if sk else eo.node)
